@@ -309,6 +309,9 @@ def witness_trees(gname: str = "lang") -> List[Any]:
                 [",".join("x" if i == k else "y" for i in range(12)) for k in range(12)] + \
                 [",".join("y" if i == k else "x" for i in range(12)) for k in range(12)]
         gram = ROW_GRAMMAR
+    elif gname == "alt":
+        progs = [d + f + e for d in "xy" for f in "xy" for e in "12"] + [f1 + e1 + f2 + e2 for f1 in "xy" for e1 in "12" for f2 in "xy" for e2 in "12"]
+        gram = ALT_GRAMMAR
     else:
         progs = ['k"v"', 'q"w"', "k\\v", "q\\'", "k\nw", "{v}", "{'}", "[w]", "k\tv", 'k"\'"']
         gram = ESC_GRAMMAR
@@ -762,6 +765,9 @@ ROW_GRAMMAR = {
     "<cell>": ["x", "y"],
 }
 GRAMMARS["row"] = ROW_GRAMMAR
+# two expansion alternatives whose children at the same position have different labels
+ALT_GRAMMAR = {"<start>": ["<a>"], "<a>": ["<b><c>", "<c><c>"], "<b>": ["<d>"], "<c>": ["<f><e>"], "<f>": ["<d>"], "<d>": ["x", "y"], "<e>": ["1", "2"]}
+GRAMMARS["alt"] = ALT_GRAMMAR
 
 
 def c08_pairs(tier: str) -> List[Dict[str, str]]:
@@ -853,6 +859,22 @@ def c08_pairs(tier: str) -> List[Dict[str, str]]:
     add("names/mexpr-var-default-name/named-forall", 'forall <assgn> a="{<var> var} := <rhs>": var = <var>', core_fa)
     add("names/quantifier-var-default-name", 'exists <assgn> var: var.<rhs>.<digit> = <digit>',
         'forall <digit> e in start: exists <assgn> a="<var> := {<digit> d}" in start: (= d e)')
+    # several XPath expressions on ONE bound variable are merged into one match expression
+    add("xpath/two-paths-one-variable/different-alternatives", 'forall <a> v: (v.<b>.<d> = "x" and v.<c>.<e> = "1")',
+        'forall <a> v="{<d> d}<f>{<e> e}" in start: ((= d "x") and (= e "1"))', g="alt")
+    add("xpath/two-paths-one-variable/same-alternative", 'forall <a> v: (v.<c>.<f> = "x" and v.<c>.<e> = "1")',
+        '(forall <a> v="<b>{<f> f}{<e> e}" in start: ((= f "x") and (= e "1"))) and (forall <a> v="{<f> f}{<e> e}<c>" in start: ((= f "x") and (= e "1")))', g="alt")
+    add("xpath/two-paths-one-variable/lang", 'forall <assgn> a: (a.<var> = "a" and a.<rhs>.<digit> = "1")',
+        'forall <assgn> a="{<var> v} := {<digit> d}" in start: ((= v "a") and (= d "1"))')
+    add("xpath/two-paths-one-variable/exists", 'exists <assgn> a: (a.<var> = "a" and a.<rhs>.<var> = "b")',
+        'exists <assgn> a="{<var> v} := {<var> w}" in start: ((= v "a") and (= w "b"))')
+    # nested unnamed quantifiers over the same nonterminal (both get the default name; the inner one has to be renamed)
+    add("names/nested-unnamed-same-type/exists-forall", 'exists <var>: (<var> = "a" and forall <var>: not <var> = "c")',
+        'exists <var> v in start: ((= v "a") and forall <var> w in start: (not (= w "c")))')
+    add("names/nested-unnamed-same-type/forall-exists", 'forall <var>: (<var> = "a" or exists <var>: <var> = "c")',
+        'forall <var> v in start: ((= v "a") or exists <var> w in start: (= w "c"))')
+    add("names/nested-unnamed-same-type/exists-exists", 'exists <var>: (<var> = "a" and exists <var>: <var> = "b")',
+        'exists <var> v in start: ((= v "a") and exists <var> w in start: (= w "b"))')
     # scoping: sibling quantifiers may reuse a variable name, also for a different nonterminal
     add("scoping/same-name-different-type/or", '(exists <digit> e in start: (= e "a")) or (exists <var> e in start: (= e "a"))',
         '(exists <digit> d in start: (= d "a")) or (exists <var> v in start: (= v "a"))')
@@ -903,6 +925,25 @@ def c08_pairs(tier: str) -> List[Dict[str, str]]:
     return P
 
 
+def nested_rebinding(f: L.Formula, bound=()) -> Optional[str]:
+    """name of a variable that is bound by a quantifier (or its match expression) inside the scope of another binder of the
+    same variable, or None"""
+    if isinstance(f, (L.QuantifiedFormula, L.NumericQuantifiedFormula)):
+        here = [f.bound_variable]
+        if isinstance(f, L.QuantifiedFormula) and f.bind_expression is not None:
+            here += [v for v in f.bind_expression.bound_variables()]
+        for v in here:
+            if any(v.name == b for b in bound):
+                return v.name
+        return nested_rebinding(f.inner_formula, bound + tuple(v.name for v in here))
+    if isinstance(f, (L.NegatedFormula, L.ConjunctiveFormula, L.DisjunctiveFormula)):
+        for a in f.args:
+            r = nested_rebinding(a, bound)
+            if r:
+                return r
+    return None
+
+
 def c08_worker(job: Dict[str, str]) -> Dict[str, Any]:
     import warnings
     warnings.filterwarnings("ignore")
@@ -919,6 +960,13 @@ def c08_worker(job: Dict[str, str]) -> Dict[str, Any]:
     except BaseException as e:
         res.append(dict(name="sugar-accepted", verdict="violated", key="%s/rejected-%s" % (job["kind"], type(e).__name__), solver_s=0.0,
                         what="parse_isla rejects the documented simplified form %r: %s: %s" % (job["sugar"], type(e).__name__, str(e)[:160])))
+        return dict(job=job, desc=desc, results=res)
+    shadowed = nested_rebinding(S)
+    if shadowed:
+        # the first-order encoding scopes binders properly, ISLa's evaluator does not (the outer assignment wins): a translation
+        # that binds one variable twice on a path is ill-formed core ISLa and is not handed to the equivalence check
+        res.append(dict(name="sugar-well-formed", verdict="violated", key="%s/nested-rebinding" % job["kind"], solver_s=0.0,
+                        what="the translation of %r binds %s again inside its own scope: %s" % (job["sugar"], shadowed, str(S)[:300])))
         return dict(job=job, desc=desc, results=res)
     enc = fol.Encoder()
     r = check_equiv(enc, C, S, False, "sugar-equals-core", gname=gname)
